@@ -463,3 +463,92 @@ Definition publish_history (specs : list sspec) (steps : list (list node * metri
   | None => None
   | Some mg => Some (pub_history mg [] steps)
   end.
+
+(* ------------------------------------------------------------------ *)
+(* 6. The worker's two ways to an assignment, key by key                *)
+(* ------------------------------------------------------------------ *)
+
+(* calculateAndApplyAssignment after fix 3dd3dc2: the manager's configs are
+   walked in order on ONE assignment context (calculateSingleSchedulerAssignment
+   = runPipeline, never batched, then its nodes enter AssignedNodes) until the
+   requested scheduler has been calculated.  Whether a predecessor has a
+   NodeShard, in the lister or on the API server, plays no role. *)
+Fixpoint fallback_loop (nodes : list node) (cfgs : list (Z * gchain node)) (assigned : list positive) (s : Z)
+  : option (list positive) :=
+  match cfgs with
+  | [] => None                       (* "scheduler config not found" *)
+  | c :: r => let sel := run_pipeline nname (snd c) nodes assigned in
+              if fst c =? s then Some sel else fallback_loop nodes r (sel ++ assigned) s
+  end.
+
+Definition mg_cfgs (mg : manager) (m : metrics) : list (Z * gchain node) :=
+  map (fun c => (fst c, to_gchain (mlookup m) (snd c))) mg.
+
+Definition fallback (mg : manager) (nodes : list node) (m : metrics) (s : Z) : option (list positive) :=
+  fallback_loop (list_nodes nodes) (mg_cfgs mg m) [] s.
+
+(* controller state between worker items: the NodeShards on the API server and
+   the assignment cache (None = empty or older than maxAssignmentCacheRetention) *)
+Record cstate6 := { c_api : list (Z * list positive); c_cache : option (list (Z * list positive)) }.
+
+Fixpoint premove (pub : list (Z * list positive)) (s : Z) : list (Z * list positive) :=
+  match pub with
+  | [] => []
+  | (k, v) :: t => if k =? s then premove t s else (k, v) :: premove t s
+  end.
+
+Fixpoint pinsert (pub : list (Z * list positive)) (s : Z) (l : list positive) : list (Z * list positive) :=
+  match pub with
+  | [] => [(s, l)]
+  | (k, v) :: t => if s <? k then (s, l) :: pub else if s =? k then (s, l) :: t else (k, v) :: pinsert t s l
+  end.
+
+(* applyAssignment for scheduler s with the NodeShards in [hidden] missing from
+   the lister: a visible shard is rewritten iff assignmentNeedsUpdate; an
+   invisible one goes to createShard, which creates it unless the API server
+   already has it (AlreadyExists is swallowed: nothing changes) *)
+Definition apply6 (api : list (Z * list positive)) (hidden : list Z) (s : Z) (desired : list positive) :=
+  match plookup api s with
+  | Some cur => if existsb (Z.eqb s) hidden then api
+                else if needs_update cur desired then pinsert api s desired else api
+  | None => pinsert api s desired
+  end.
+
+Inductive op6 :=
+| OSync (hidden : list Z)          (* syncShards, then every scheduler's key *)
+| OKey (s : Z) (hidden : list Z)   (* one worker item *)
+| OClear                           (* ConfigMap reload / cache outlived its retention *)
+| ODelete (s : Z).                 (* somebody deleted the NodeShard *)
+
+Definition step6 (mg : manager) (nodes : list node) (m : metrics) (st : cstate6) (o : op6) : cstate6 :=
+  match o with
+  | OSync hidden =>
+    let calc := snd (reconcile mg (list_nodes nodes) m) in
+    {| c_api := fold_left (fun api e => apply6 api hidden (fst e) (snd e)) calc (c_api st);
+       c_cache := Some calc |}
+  | OKey s hidden =>
+    let desired := match c_cache st with
+                   | Some c => match plookup c s with Some l => Some l | None => fallback mg nodes m s end
+                   | None => fallback mg nodes m s
+                   end in
+    match desired with
+    | Some l => {| c_api := apply6 (c_api st) hidden s l; c_cache := c_cache st |}
+    | None => st
+    end
+  | OClear => {| c_api := c_api st; c_cache := None |}
+  | ODelete s => {| c_api := premove (c_api st) s; c_cache := c_cache st |}
+  end.
+
+Fixpoint ops_history (mg : manager) (st : cstate6) (steps : list (list node * metrics * list op6))
+  : list (list (Z * list positive)) :=
+  match steps with
+  | [] => []
+  | (ns, m, ops) :: r => let st' := fold_left (step6 mg ns m) ops st in
+                         c_api st' :: ops_history mg st' r
+  end.
+
+Definition publish_ops_history (specs : list sspec) (steps : list (list node * metrics * list op6)) :=
+  match new_manager specs with
+  | None => None
+  | Some mg => Some (ops_history mg {| c_api := []; c_cache := None |} steps)
+  end.
